@@ -317,6 +317,11 @@ impl World {
         forall|q: PathV| #[trigger] self.files.contains_key(q) && self.files[q] == ino ==> !self.in_cache_namespace(q) && !self.is_ro_entry(q)
     }
 
+    /// No key-named file under a read-only root is a link to `ino` (so re-moding `ino` cannot touch a read-only cache).
+    pub open spec fn not_ro_linked(self, ino: InodeId) -> bool {
+        forall|q: PathV| #[trigger] self.files.contains_key(q) && self.files[q] == ino ==> !self.is_ro_entry(q)
+    }
+
     /// The directory `base` is configured: a read-write cache directory or a directory under a read-only root.
     pub open spec fn configured_dir(self, base: PathV) -> bool {
         self.cache_dirs.contains(base) || self.under_ro(base)
